@@ -87,3 +87,9 @@ Theorem C07_source_transpose_accesses :
     gen_transpose_avx_accesses W M N i ii j jj v = model_transpose_avx W M N i ii j jj v /\
     gen_transpose_plain_accesses M N i j = [(1, j * M + i); (0, i * N + j)].
 Proof. exact gen_transpose_accesses_eq. Qed.
+
+(** is_aligned() of each of the 16 view classes under expressions/views, as translated on this run, is false:
+    accesses through views are never alignment-requiring (the views' first element and row pitch are arbitrary) *)
+Theorem C07_source_views_never_claim_alignment :
+  forallb negb gen_views_is_aligned = true /\ length gen_views_is_aligned = 16.
+Proof. exact gen_views_never_aligned. Qed.
